@@ -27,7 +27,21 @@ inductive Val where
   | s (r : Res Nat)
   | c (r : Res (Nat × List Nat))
 
+/-- Python primitives evaluated by the harness on one value handle -/
+structure Prim where
+  isStr : Bool
+  isNum : Bool
+  intOf : Option Nat
+  floatOf : Option Nat
+  strOf : Nat
+  boolOf : Option Nat
+  splitOf : Nat
+
 structure DSt where
+  fieldsA : List (Nat × Ann) := []                                  -- `env A`: schema fields with annotation class
+  dicts : Array (Nat × Option (Res (List (Nat × Nat)))) := #[]      -- `env D`: none = a list, some r = dict(data)
+  ofd : Array (List (Nat × Nat) × Nat) := #[]                       -- `env O`: items -> handle of that dict
+  prims : Array (Nat × Prim) := #[]                                 -- `env P`
   cfg : Cfg := ⟨[]⟩
   stats : Stats := Stats.zero
   table : Array (Key × Val) := #[]
@@ -40,13 +54,42 @@ def lookup (tb : Array (Key × Val)) (k : Key) : Option (Nat × Val) :=
 
 def unrecorded : Exc := .other 999
 
-def mkEnv (tb : Array (Key × Val)) : Env Nat Nat Nat where
+def unknownDict : Nat := 999999
+
+def mkCEnv (st : DSt) : CEnv Nat Nat Nat where
+  isList j := match st.dicts.find? (fun e => e.1 == j) with | some (_, none) => true | _ => false
+  toDict j := match st.dicts.find? (fun e => e.1 == j) with | some (_, some r) => r | _ => .raise unrecorded
+  ofDict l := match st.ofd.find? (fun e => e.1 == l) with | some (_, j) => j | none => unknownDict
+  fields := st.fieldsA
+  isStr v := match st.prims.find? (fun e => e.1 == v) with | some (_, p) => p.isStr | none => false
+  isNum v := match st.prims.find? (fun e => e.1 == v) with | some (_, p) => p.isNum | none => false
+  intOf v := match st.prims.find? (fun e => e.1 == v) with | some (_, p) => p.intOf | none => none
+  floatOf v := match st.prims.find? (fun e => e.1 == v) with | some (_, p) => p.floatOf | none => none
+  strOf v := match st.prims.find? (fun e => e.1 == v) with | some (_, p) => p.strOf | none => unknownDict
+  boolOf v := match st.prims.find? (fun e => e.1 == v) with | some (_, p) => p.boolOf | none => none
+  splitOf v := match st.prims.find? (fun e => e.1 == v) with | some (_, p) => p.splitOf | none => unknownDict
+
+def convCode : Conv → Nat
+  | .strToInt => 0 | .strToFloat => 1 | .numToStr => 2 | .strToBool => 3 | .strToList => 4
+
+/-- the coercion helper computed by the model from the primitives; labels as `key * 8 + conversion` -/
+def modelledCoerce (st : DSt) (j : Nat) : Res (Nat × List Nat) :=
+  match coerceModel (mkCEnv st) j with
+  | .ok (j', ls) => .ok (j', ls.map fun l => l.1 * 8 + convCode l.2)
+  | .raise e => .raise e
+
+def mismatch : Exc := .other 998
+
+def mkEnv (st : DSt) (tb : Array (Key × Val)) : Env Nat Nat Nat where
   loads t := match lookup tb (.L t) with | some (_, .j r) => r | _ => .raise unrecorded
   isNone j := j == 0
   findall i t := match lookup tb (.F i t) with | some (_, .texts r) => r | _ => .raise unrecorded
   sub i t := match lookup tb (.U i t) with | some (_, .text r) => r | _ => .raise unrecorded
   validate d := match lookup tb (.V d) with | some (_, .s r) => r | _ => .raise unrecorded
-  coerce d := match lookup tb (.C d) with | some (_, .c r) => r | _ => .raise unrecorded
+  coerce d :=
+    match lookup tb (.C d) with
+    | some (_, .c r) => if r = modelledCoerce st d then r else .raise mismatch   -- must equal what the real helper did
+    | _ => .raise unrecorded
 
 def keyOf : Call Nat Nat Nat → Key
   | .loads t _ => .L t
@@ -55,8 +98,17 @@ def keyOf : Call Nat Nat Nat → Key
   | .validate d _ => .V d
   | .coerce d _ => .C d
 
-def showCalls (tb : Array (Key × Val)) (tr : List (Call Nat Nat Nat)) : String :=
-  "calls=" ++ showList (tr.map fun c => match lookup tb (keyOf c) with | some (i, _) => toString i | none => "?")
+/-- indices of the calls made; a coercion call whose recorded result is not what the model of the helper computes
+    from the primitives is marked (the exception it is answered with could otherwise be indistinguishable from
+    the helper's own) -/
+def showCalls (st : DSt) (tb : Array (Key × Val)) (tr : List (Call Nat Nat Nat)) : String :=
+  "calls=" ++ showList (tr.map fun c =>
+    match lookup tb (keyOf c) with
+    | some (i, v) =>
+      match c, v with
+      | .coerce d _, .c r => if r = modelledCoerce st d then toString i else s!"{i}!coerce-model-differs"
+      | _, _ => toString i
+    | none => "?")
 
 def excOf (s : String) : Exc :=
   if s = "jd" then .jsonDecode else if s = "ve" then .validation else .other (natD (s.drop 1).toString 0)
@@ -90,6 +142,25 @@ def errTag : Option ErrTag → String
 def textOf (texts : Array Text) (s : String) : Text :=
   if s.startsWith "@" then (texts[natD (s.drop 1).toString 0]?).getD [] else decodeCps s
 
+def annOf (s : String) : Ann :=
+  if s = "i" then .int else if s = "f" then .float else if s = "s" then .str else if s = "b" then .bool
+  else if s = "l" then .list else .other
+
+/-- "k:v" -/
+def pairOf (s : String) : Nat × Nat :=
+  match s.splitOn ":" with
+  | [a, b] => (natD a, natD b)
+  | _ => (0, 0)
+
+def optNat (s : String) : Option Nat := if s = "x" then none else some (natD s)
+
+/-- branch tags: which entries of the coercion table fired in the coercion calls of this fold -/
+def convTags (tr : List (Call Nat Nat Nat)) : List String :=
+  tr.foldr (fun c acc => match c with
+    | .coerce _ (.ok (_, ls)) => (ls.map fun l => s!"conv:{l % 8}") ++ acc
+    | .coerce _ (.raise _) => "conv:raise" :: acc
+    | _ => acc) []
+
 def parseEnv (texts : Array Text) (toks : List String) : Option (Key × Val) :=
   let decodeCps := textOf texts
   match toks with
@@ -113,6 +184,14 @@ def showStats (st : Stats) : String :=
 def step (st : DSt) (toks : List String) : DSt × String :=
   match toks with
   | "schema" :: _ => (st, "ok")
+  | "env" :: "A" :: fs =>
+    ({ st with fieldsA := fs.map fun f => match f.splitOn ":" with | [k, a] => (natD k, annOf a) | _ => (0, .other) }, "ok")
+  | ["env", "D", j, "list"] => ({ st with dicts := st.dicts.push (natD j, none) }, "ok")
+  | "env" :: "D" :: j :: "ok" :: items => ({ st with dicts := st.dicts.push (natD j, some (.ok (items.map pairOf))) }, "ok")
+  | ["env", "D", j, "raise", e] => ({ st with dicts := st.dicts.push (natD j, some (.raise (excOf e))) }, "ok")
+  | "env" :: "O" :: j :: items => ({ st with ofd := st.ofd.push (items.map pairOf, natD j) }, "ok")
+  | ["env", "P", v, a, b, i, f, s, bo, sp] =>
+    ({ st with prims := st.prims.push (natD v, ⟨boolOf a, boolOf b, optNat i, optNat f, natD s, optNat bo, natD sp⟩) }, "ok")
   | ["env", "T", t] => ({ st with texts := st.texts.push (decodeCps t) }, "ok")
   | "env" :: rest =>
     match parseEnv st.texts rest with
@@ -124,26 +203,26 @@ def step (st : DSt) (toks : List String) : DSt × String :=
   | ["new", c] => ({ st with cfg := ⟨stratsOf c⟩, stats := Stats.zero }, "ok")
   | ["fold", raw, call] =>
     let rawT := decodeCps raw
-    match fold (mkEnv st.table) st.cfg st.stats rawT (stratsOf call) with
+    match fold (mkEnv st st.table) st.cfg st.stats rawT (stratsOf call) with
     | ⟨tr, .ok (stats', r)⟩ =>
       let sid := match r.struct with | some s => toString s | none => "none"
       ({ st with stats := stats' },
-        joinSp [showBool r.valid, sid, showBool r.err.isSome, showBool (r.raw == rawT), showCalls st.table tr]
-        ++ " ## " ++ (if r.valid then "hit" else "fail"))
-    | ⟨tr, .raise _⟩ => (st, joinSp ["raise", showCalls st.table tr])
+        joinSp [showBool r.valid, sid, showBool r.err.isSome, showBool (r.raw == rawT), showCalls st st.table tr]
+        ++ " ## " ++ joinSp ((if r.valid then "hit" else "fail") :: convTags tr))
+    | ⟨tr, .raise _⟩ => (st, joinSp ["raise", showCalls st st.table tr])
   | ["foldx", raw, call] =>
     let rawT := decodeCps raw
-    match foldX (mkEnv st.table) st.cfg st.stats rawT (stratsOf call) with
+    match foldX (mkEnv st st.table) st.cfg st.stats rawT (stratsOf call) with
     | ⟨tr, .ok (stats', r)⟩ =>
       let sid := match r.struct with | some s => toString s | none => "none"
       let tags := (if r.valid then "hitx:" ++ showOptStrat r.strategyUsed else "failx") ::
-        (r.attempts.filter (fun a => !a.success)).map (fun a => errTag a.err)
+        (r.attempts.filter (fun a => !a.success)).map (fun a => errTag a.err) ++ convTags tr
       ({ st with stats := stats' },
         joinSp [showBool r.valid, sid, showBool r.err.isSome, showBool (r.raw == rawT), showOptStrat r.strategyUsed,
           showRat r.confidence, showList (r.coercions.map showNote), showList (r.attempts.map showAtt),
-          showCalls st.table tr]
+          showCalls st st.table tr]
         ++ " ## " ++ joinSp tags)
-    | ⟨tr, .raise _⟩ => (st, joinSp ["raise", showCalls st.table tr])
+    | ⟨tr, .raise _⟩ => (st, joinSp ["raise", showCalls st st.table tr])
   | ["stats"] => (st, showStats st.stats)
   | ["resetstats"] => ({ st with stats := Stats.zero }, "ok")
   | _ => (st, "bad-op")
